@@ -11,4 +11,5 @@ cd harness
 "$GO" test -c -race -tags verif -o ../.build/checks.race.test ./checks || exit 1
 # the CLI (no verif tag) used by the kernel-lab stages of C09 C10 C13 C17
 (cd /repo && "$GO" build -o /verif/.build/datadog-traceroute . ) || exit 1
+(cd /repo && "$GO" build -race -o /verif/.build/datadog-traceroute.race . ) || exit 1
 echo setup ok
